@@ -15,6 +15,8 @@ def make_job(case, idx):
         j['cached'] = True
     if case.get('simple'):
         j['simple'] = True
+    if case.get('simple_pre'):
+        j['simple_pre'] = case['simple_pre']
     if case.get('prebuild'):
         j['prebuild'] = case['prebuild']
     return j
